@@ -291,7 +291,11 @@ fn lab_color() -> BoxedStrategy<[f64; 3]> {
     let ab = prop_oneof![
         8 => (-128.0..=127.0f64, -128.0..=127.0f64).prop_map(|(a, b)| (a, b)),
         2 => Just((0.0, 0.0)),
+        // exactly on an axis (b = 0 with a < 0 is hue 180, a = 0 is hue 90 / 270): the hue special cases of the formula
+        2 => (-128.0..=127.0f64, any::<bool>(), any::<bool>()).prop_map(|(t, on_a, neg0)| { let z = if neg0 { -0.0 } else { 0.0 }; if on_a { (t, z) } else { (z, t) } }),
         1 => (-1e-9..=1e-9f64, -1e-9..=1e-9f64).prop_map(|(a, b)| (a, b)),
+        // both colours next to the neutral axis (G -> 0.5, a' = 1.5 a)
+        1 => (-0.02..=0.02f64, -0.02..=0.02f64).prop_map(|(a, b)| (a, b)),
         4 => (0.0..=128.0f64, pv::gen::hue()).prop_map(|(c, h)| (c * h.to_radians().cos(), c * h.to_radians().sin())),
         2 => (20.0..=30.0f64, pv::gen::hue()).prop_map(|(c, h)| (c * h.to_radians().cos(), c * h.to_radians().sin())),
         2 => (0.0..=128.0f64, 265.0..=285.0f64).prop_map(|(c, h)| (c * h.to_radians().cos(), c * h.to_radians().sin())),
